@@ -75,7 +75,7 @@ def interface_contracts():
         target=f"{MATCHABLE}::Matchable.to_value", interface=True, types={"skip": "val"},
         modifies=["self.g_to_value_calls"],
         ensures={"memoised": "same(result, self.g_value)", "counted": "self.g_to_value_calls == old(self.g_to_value_calls) + 1"},
-        returns="val", class_fields=CLASS_FIELDS,
+        returns="expr:self.g_value", class_fields=CLASS_FIELDS,
         assumptions=["a child's to_value() returns one value per line (memoised in self.value); side effects happen on the first call only"]))
     cs.append(Contract(
         target=f"{MATCHABLE}::Matchable.matches", interface=True, types={"skip": "val"},
